@@ -519,6 +519,41 @@ func main() {
 	b.WriteString("]\n")
 	canonicalNOB := "{ p, err = ReadNull(data) if err != nil { return 0, origErr } return p, nil }"
 	fmt.Fprintf(&b, "/-- nullOrBust has the canonical body -/\ndef nullOrBustCanonical : Bool := %v\n", nullOrBust == canonicalNOB)
+	// the public wrappers of rjson.go around the generated machines: (name, inner function, canonical body)
+	wrapperInner := map[string]string{"HandleObjectValues": "handleObjectValues", "HandleArrayValues": "handleArrayValues", "SkipValue": "skipValue", "SkipValueFast": "skipValueFast"}
+	var wnames []string
+	wshape := map[string]bool{}
+	for path, f := range files {
+		if filepath.Base(path) != "rjson.go" {
+			continue
+		}
+		for _, d := range f.Decls {
+			fd, ok := d.(*ast.FuncDecl)
+			if !ok || fd.Body == nil || fd.Recv != nil {
+				continue
+			}
+			inner, ok := wrapperInner[fd.Name.Name]
+			if !ok {
+				continue
+			}
+			mid := "data, "
+			if strings.HasPrefix(fd.Name.Name, "Handle") {
+				mid = "data, handler, "
+			}
+			canonical := fmt.Sprintf("{ if buffer == nil { p, _, err = %s(%snil) return p, err } p, buffer.stackBuf, err = %s(%sbuffer.stackBuf) return p, err }", inner, mid, inner, mid)
+			wnames = append(wnames, fd.Name.Name)
+			wshape[fd.Name.Name] = src(fd.Body) == canonical
+		}
+	}
+	sort.Strings(wnames)
+	fmt.Fprintf(&b, "/-- the Buffer wrappers of rjson.go: (name, body is exactly\n    `if buffer == nil { p, _, err = inner(data[, handler], nil); return p, err }; p, buffer.stackBuf, err = inner(data[, handler], buffer.stackBuf); return p, err`):\n    offset and error of the generated machine are handed on unchanged, the grown stack is stored back -/\ndef wrapperFns : List (String × Bool) := [")
+	for i, n := range wnames {
+		if i > 0 {
+			b.WriteString(", ")
+		}
+		fmt.Fprintf(&b, "(%q, %v)", n, wshape[n])
+	}
+	b.WriteString("]\n")
 	reach, sites, aerr := allocFacts(*repo)
 	if aerr != nil {
 		fmt.Fprintln(os.Stderr, aerr)
